@@ -840,6 +840,11 @@ def commands_reach_manager(F, R, rule='B.C03.cmd-applied', owners=SOUND_OWNERS, 
                 ok = bool(tgt) and must_pass(v, [se], nxt + v.return_blocks(), tgt)
             R.check(ok, rule, '%s:%s' % (tag, lf[0]), 'the %s sound does not hand every `%s` command it reads to PlaybackStateManager::%s' % (tag, lf[0], lf[0]),
                     detail={'reader': lf[0]}, where=v.file)
+            # ... and the command is looked for in every callback, whatever state the owner is in (a handle that has been
+            # dropped may have written its last command just before)
+            R.check(must_pass(v, [0], v.return_blocks(), [x]), rule, '%s:%s:polled' % (tag, lf[0]),
+                    'the %s command reading can return without having polled `%s`: a command written before that path was taken is never applied' % (tag, lf[0]),
+                    detail={'reader': lf[0]}, where=v.file, nontrivial=False)
     R.floor(rule, n, floor)
 
 
